@@ -52,14 +52,16 @@ AnsFirst(u, nm, lk, kind, pl) ==
     /\ UNCHANGED red
 
 \* the re-delivered datagram is read by the server: the windows are evaluated on the history BEFORE this step.
-\* pending = a query with this name (letter case ignored) is being held: the re-delivery is inside the property's scope;
-\* pendingx = a held query has exactly this name: the server remembers it as a duplicate and answers both at once
-\* (a case-changed copy is answered as a query of its own and takes its own slot in the server's memories)
+\* pending = a query with this name (letter case ignored) is being held: the re-delivery is inside the property's scope,
+\* and the server remembers it as the held query's duplicate and answers both at once - the two share ONE entry of the
+\* answer cache, filed under the held query's spelling (since the repair of F11 a case-changed copy of a held query is
+\* its duplicate too; a later repeat of the copy's spelling is then not "still in the answer cache": it is suppressed
+\* by the query memory).  pendingx = a held query has exactly this spelling (kept for the record)
 RedBegin(u, nm, lk, kind, pending, pendingx) ==
     /\ u \in Users
     /\ red' = [on |-> TRUE, incache |-> InCache(u, nm),
                inwin |-> (InCache(u, nm) \/ InQmem(u, lk, kind) \/ pending),
-               orig |-> IF InCache(u, nm) THEN OrigPl(u, nm) ELSE "", pending |-> pendingx]
+               orig |-> IF InCache(u, nm) THEN OrigPl(u, nm) ELSE "", pending |-> pending]
     /\ UNCHANGED hist
 
 \* end of that server step
